@@ -20,13 +20,14 @@ namespace {
     int code;
   };
 
-  constexpr int N_KINDS = 10;
+  constexpr int N_KINDS = 13;
   const char *kind_names[N_KINDS] = {"script_int", "script_string", "script_object", "script_runtime_error", "failed_dispatch",
-                                     "cpp_runtime_error", "cpp_out_of_range", "cpp_logic_error", "cpp_user_class", "cpp_int"};
+                                     "cpp_runtime_error", "cpp_out_of_range", "cpp_logic_error", "cpp_user_class", "cpp_int",
+                                     "script_bool", "script_double", "script_bool_expression"};
   // dynamic type of the thrown value, "" = not representable in script (bypasses catch clauses)
-  const char *kind_type[N_KINDS] = {"int", "string", "MyExc", "runtime_error", "eval_error", "runtime_error", "out_of_range", "logic_error", "", ""};
-  const char *catch_types[] = {"", "int", "string", "MyExc", "OtherExc", "runtime_error", "out_of_range", "logic_error", "exception", "eval_error"};
-  constexpr int N_CATCH_TYPES = 10;
+  const char *kind_type[N_KINDS] = {"int", "string", "MyExc", "runtime_error", "eval_error", "runtime_error", "out_of_range", "logic_error", "", "", "bool", "double", "bool"};
+  const char *catch_types[] = {"", "int", "string", "MyExc", "OtherExc", "runtime_error", "out_of_range", "logic_error", "exception", "eval_error", "bool", "double"};
+  constexpr int N_CATCH_TYPES = 12;
 
   bool derives(const std::string &dyn, const std::string &base) {
     if (dyn == base) return true;
@@ -136,6 +137,9 @@ namespace {
       case 2: return "throw(MyExc());";
       case 3: return "throw(runtime_error(\"x\"));";
       case 4: return "undefined_function_zzz();";
+      case 10: return "throw(true);";
+      case 11: return "throw(2.5);";
+      case 12: return "throw(1 < 2);";
       default: return "cb(" + std::to_string(kind) + ");";
       }
     }
@@ -232,9 +236,12 @@ namespace {
       e.type = kind_type[kind];
       static const char *leave[N_KINDS] = {"Boxed_Value|i:1", "Boxed_Value|s:s", "Boxed_Value|obj:MyExc{}", "Boxed_Value|exc:St13runtime_error:x",
                                            "eval_error|Can not find object: undefined_function_zzz", "St13runtime_error|injected", "St12out_of_range|injected",
-                                           "St11logic_error|injected", "user_class|", "int|9"};
+                                           "St11logic_error|injected", "user_class|", "int|9", "Boxed_Value|true", "Boxed_Value|d:2.5", "Boxed_Value|true"};
       e.leave = leave[kind];
-      e.leave_spec = kind == 0 ? "int|1" : (kind == 1 ? "std::string|s" : e.leave);
+      // exception_specification<int, std::string, bool, double>: a script value of exactly one of these types
+      // leaves eval as that C++ type
+      static const char *spec[N_KINDS] = {"int|1", "std::string|s", nullptr, nullptr, nullptr, nullptr, nullptr, nullptr, nullptr, nullptr, "bool|1", "double|2.5", "bool|1"};
+      e.leave_spec = spec[kind] ? spec[kind] : e.leave;
       return e;
     }
     Exc body(const J &b) {
@@ -382,7 +389,7 @@ namespace {
     std::string got;
     try {
       if (spec) {
-        e.eval(script, exception_specification<int, std::string>());
+        e.eval(script, exception_specification<int, std::string, bool, double>());
       } else {
         e.eval(script);
       }
@@ -391,6 +398,10 @@ namespace {
       got = "user_class|";
     } catch (const std::string &s) {
       got = "std::string|" + s;
+    } catch (bool b) {
+      got = std::string("bool|") + (b ? "1" : "0");
+    } catch (double d) {
+      got = d == 2.5 ? "double|2.5" : "double|?";
     } catch (...) {
       got = describe_current_exception(&e);
     }
@@ -414,7 +425,7 @@ namespace {
         // which kind of trace difference?
         res.rule = "handler-trace-differs";
       }
-      res.detail = std::string("site ") + std::to_string(site) + " kind " + kind_names[kind] + (spec ? " with exception_specification<int,string>" : "") + ": trace got [" + gt + "] want [" + wt
+      res.detail = std::string("site ") + std::to_string(site) + " kind " + kind_names[kind] + (spec ? " with exception_specification<int,string,bool,double>" : "") + ": trace got [" + gt + "] want [" + wt
           + "]; outcome got " + got + " want " + want_out + "; script: " + script;
     }
     return res;
@@ -516,7 +527,7 @@ namespace {
       for (size_t i = 0; ok && i < leaves.size(); ++i) {
         for (int kind = 0; ok && kind < N_KINDS; ++kind) {
           for (int spec = 0; ok && spec < 2; ++spec) {
-            if (spec == 1 && kind > 1 && kind != 2) {
+            if (spec == 1 && kind > 2 && kind < 10) {
               continue; // the specification only concerns script-thrown values
             }
             ok = one(leaves[i], kind, spec != 0);
